@@ -318,7 +318,7 @@ def run_proc(spec):
         return outs, term, left_p, left_t
 
     try:
-        outs, term, left_p, left_t = run_with_watchdog(case, budget_s=40, what='parmap(process) early stop / failure', signature=['hang', 'process_executor'])
+        outs, term, left_p, left_t = run_with_watchdog(case, budget_s=15, what='parmap(process) early stop / failure', signature=['hang', 'process_executor'])
     finally:
         reap_children()
     # sequential meaning: the same consumer loop over a plain generator
